@@ -752,6 +752,10 @@ impl Family for C04Inner {
         } else if terms.is_empty() {
           let class = if ending == "error" { "error-lost" } else { "complete-lost" };
           v.push(Violation::new(class, &op, format!("{}({}) over {:?} ending with {}: the subscriber of inner observable {} was still open and never got that terminal: [{}]", op, a, items, want_term.show(), k, show(&got))));
+        } else if *terms[0] != want_term && (op == "group_by" || (op == "window_with_count" && a >= 2 && (got.iter().filter(|e| matches!(e, Ev::Next(_))).count() as i64) < a)) {
+          // group_by never closes a group itself, and a window that has not received its `count`
+          // items is still open: they are owed the source's terminal, nothing else
+          v.push(Violation::new("error-differs", &op, format!("{}({}): inner observable {} was still open and ended with {}, the source signalled {}", op, a, k, terms[0].show(), want_term.show())));
         } else if *terms[0] != want_term && *terms[0] != Ev::Complete {
           v.push(Violation::new("error-differs", &op, format!("{}({}): inner observable {} ended with {}, the source signalled {}", op, a, k, terms[0].show(), want_term.show())));
         }
